@@ -87,9 +87,18 @@ impl<'a, T: Read + Seek> QueueReader<'a, T> {
         Ok(())
     }
 
-    /// Reads the next packet from the compressed vector and decodes it into the queues.
+    /// Reads packets from the compressed vector until a data packet was decoded into the queues.
+    /// Index and ignored packets are skipped within the same call: they never add values,
+    /// so returning after each of them would only make the caller walk over all queues again.
     pub fn advance(&mut self) -> Result<()> {
+        while !self.advance_packet()? {}
+        Ok(())
+    }
+
+    /// Reads the next packet and returns true if it was a data packet that was decoded into the queues.
+    fn advance_packet(&mut self) -> Result<bool> {
         let packet_header = PacketHeader::read(self.reader)?;
+        let is_data = matches!(packet_header, PacketHeader::Data(_));
         match packet_header {
             PacketHeader::Index(header) => {
                 // Just skip over index packets.
@@ -162,7 +171,8 @@ impl<'a, T: Read + Seek> QueueReader<'a, T> {
 
         self.reader
             .align()
-            .read_err("Failed to align reader on next 4-byte offset after reading packet")
+            .read_err("Failed to align reader on next 4-byte offset after reading packet")?;
+        Ok(is_data)
     }
 
     /// Extracts raw values from byte streams into queues.
